@@ -94,6 +94,19 @@ func c09Run(t *testing.T, r *vRand, mb, nev int, kind int) *cfsCtl {
 	}
 	c := newCfsCtl(t, r, mb, true, txt, blocks)
 	c.se.known = append(c.se.known, files...)
+	if kind == 1 {
+		// first operation on files that came with the manifest
+		for k, name := range files {
+			if k >= 3 || c.dead {
+				break
+			}
+			if r.Chance(2, 3) {
+				name := name
+				c.runOp(func() { c.se.firstTouch(r, name, c.addOp) })
+				c.completeAll()
+			}
+		}
+	}
 	if kind == 2 {
 		// load and save unchanged
 		c.marshal()
@@ -118,7 +131,9 @@ func c09Run(t *testing.T, r *vRand, mb, nev int, kind int) *cfsCtl {
 		case k < 92:
 			c.marshal()
 		default:
-			c.setMode([]int{0, 1, 1, 2, 3}[r.Intn(5)])
+			if os.Getenv("VERIF_C09_NOFAIL") == "" {
+				c.setMode([]int{0, 1, 1, 2, 3}[r.Intn(5)])
+			}
 		}
 	}
 	c.finish()
@@ -144,6 +159,9 @@ func TestVerifC09(t *testing.T) {
 		mb := []int{1, 2, 3, 5, 8}[r.Intn(5)]
 		nev := 5 + r.Intn(maxev)
 		kind := i % 3 // 0: from the empty collection, 1: from a generated manifest, 2: load and save unchanged
+		if os.Getenv("VERIF_C09_KIND") != "" {
+			kind = vEnvInt("VERIF_C09_KIND", kind)
+		}
 		if cfsDeadCases >= 3 {
 			break
 		}
